@@ -761,3 +761,134 @@ func replaceStmt(n ast.Node, old, new ast.Stmt) {
 		return true
 	})
 }
+
+// ---------------------------------------------------------------- words inside a byte slice
+
+// wordPtrExpr: (*uint64)(unsafe.Pointer(&data[i])) -> data[i]
+func wordPtrExpr(e ast.Expr) *ast.IndexExpr {
+	call, ok := e.(*ast.CallExpr)
+	if !ok || len(call.Args) != 1 {
+		return nil
+	}
+	p, ok := call.Fun.(*ast.ParenExpr)
+	if !ok {
+		return nil
+	}
+	st, ok := p.X.(*ast.StarExpr)
+	if !ok {
+		return nil
+	}
+	if id, ok := st.X.(*ast.Ident); !ok || id.Name != "uint64" || id.Obj != nil {
+		return nil
+	}
+	up, ok := call.Args[0].(*ast.CallExpr)
+	if !ok || len(up.Args) != 1 {
+		return nil
+	}
+	sel, ok := up.Fun.(*ast.SelectorExpr)
+	if !ok || sel.Sel.Name != "Pointer" {
+		return nil
+	}
+	if id, ok := sel.X.(*ast.Ident); !ok || id.Name != "unsafe" || id.Obj != nil {
+		return nil
+	}
+	u, ok := up.Args[0].(*ast.UnaryExpr)
+	if !ok || u.Op != token.AND {
+		return nil
+	}
+	ix, _ := u.X.(*ast.IndexExpr)
+	return ix
+}
+
+// findWordPtrs: the locals declared as v := (*uint64)(unsafe.Pointer(&data[i])).  Such a v may
+// only be dereferenced (*v, *v = e), and data must not be assigned as a whole in the function.
+func (c *fnCtx) findWordPtrs(fd *ast.FuncDecl) {
+	c.wordPtrDecl, c.wordPtrIdx = map[*ast.Object]*ast.IndexExpr{}, map[*ast.Object]string{}
+	ast.Inspect(fd.Body, func(n ast.Node) bool {
+		if as, ok := n.(*ast.AssignStmt); ok && as.Tok == token.DEFINE && len(as.Lhs) == 1 && len(as.Rhs) == 1 {
+			if id, ok := as.Lhs[0].(*ast.Ident); ok && id.Obj != nil {
+				if ix := wordPtrExpr(as.Rhs[0]); ix != nil {
+					c.wordPtrDecl[id.Obj] = ix
+				}
+			}
+		}
+		return true
+	})
+	if len(c.wordPtrDecl) == 0 {
+		return
+	}
+	isPtr := func(e ast.Expr) bool {
+		id, ok := e.(*ast.Ident)
+		return ok && id.Obj != nil && c.wordPtrDecl[id.Obj] != nil
+	}
+	var walk func(n ast.Node)
+	walk = func(n ast.Node) {
+		ast.Inspect(n, func(x ast.Node) bool {
+			switch v := x.(type) {
+			case *ast.StarExpr:
+				if isPtr(v.X) {
+					return false // *v
+				}
+			case *ast.AssignStmt:
+				for i, l := range v.Lhs {
+					if isPtr(l) {
+						if v.Tok != token.DEFINE || i >= len(v.Rhs) || wordPtrExpr(v.Rhs[i]) == nil {
+							c.lostAt(v, "assignment to the word pointer %s", src(l))
+						}
+						continue
+					}
+					for _, ix := range c.wordPtrDecl {
+						if src(l) == src(ix.X) {
+							c.lostAt(v, "assignment to %s, into which a word pointer is taken", src(l))
+						}
+					}
+					walk(l)
+				}
+				for _, r := range v.Rhs {
+					walk(r)
+				}
+				return false
+			case *ast.Ident:
+				if isPtr(v) {
+					c.lostAt(v, "word pointer %s used as a value", v.Name)
+				}
+			}
+			return true
+		})
+	}
+	walk(fd.Body)
+}
+
+// wordTarget: e is *(*uint64)(unsafe.Pointer(&data[i])) or *v for a word pointer v: data[i]
+func (c *fnCtx) wordTarget(e ast.Expr) *ast.IndexExpr {
+	st, ok := e.(*ast.StarExpr)
+	if !ok {
+		return nil
+	}
+	if ix := wordPtrExpr(st.X); ix != nil {
+		return ix
+	}
+	if id, ok := st.X.(*ast.Ident); ok && id.Obj != nil && c.wordPtrDecl != nil {
+		return c.wordPtrDecl[id.Obj]
+	}
+	return nil
+}
+
+// wordAccess: the byte list and the index of a word access (the index evaluated now for the
+// direct form, the one frozen at its declaration for a word pointer)
+func (c *fnCtx) wordAccess(e ast.Expr, ix *ast.IndexExpr, pre *[]fnBind) (*fnVar, string) {
+	x := c.plainVar(ix.X)
+	if x == nil || x.typ.k != "slice" || x.typ.elem.k != "byte" || x.noElems {
+		c.lostAt(e, "word access into %s (must be a list-represented []byte variable)", src(ix.X))
+	}
+	st := e.(*ast.StarExpr)
+	if id, ok := st.X.(*ast.Ident); ok && id.Obj != nil {
+		idx, ok := c.wordPtrIdx[id.Obj]
+		if !ok {
+			c.lostAt(e, "word pointer %s used before it is set", id.Name)
+		}
+		return x, idx
+	}
+	idx, _ := c.expr(ix.Index, pre)
+	return x, idx
+}
